@@ -5,6 +5,8 @@ CFG = {
     "streams": [
         {"mod": "extras", "component": "portunion", "driver": "portunion",
          "n": {"quick": 6000, "thorough": 40000}},
+        {"mod": "extras", "component": "hopaddr", "driver": "hopaddr",
+         "n": {"quick": 5000, "thorough": 40000}},
         {"kind": "gotest", "mod": "extras", "pkg": "./transport/udphop", "run": "^TestVerifC19Hop$",
          "component": "hop", "driver": "hop", "reset_re": "^reset", "timeout": 1500,
          "n": {"quick": 6000, "thorough": 40000}},
@@ -14,7 +16,10 @@ CFG = {
             "(so ranges touch, overlap, nest and are adjacent), reversed bounds, leading zeros, chains of adjacent ranges in shuffled "
             "order, then mutated (stray/double separators, spaces, bad numbers 65536.., signs, underscores, non-ASCII, 3-part ranges, "
             "wildcards mixed in) plus Normalize on hand-built unsorted unions; distinct = distinct op line; non-trivial = the parser "
-            "accepted. hop: histories reset;(tick ok|err, write, recv on current/previous/closed/unknown socket, read timeouts, "
+            "accepted. hopaddr: address strings host:expr over IPv4 literals, bracketed IPv6 (zone, v4-mapped), empty host, and "
+            "malformed hosts (unbracketed IPv6, missing/extra/misplaced brackets, spaces, non-literals that fail fast), port "
+            "expressions valid and invalid (empty, trailing/leading commas, spaces, second colon, 65536), missing port, one-byte "
+            "insert/delete/replace mutations with ':[], -%'; non-trivial = the string splits as host:port. hop: histories reset;(tick ok|err, write, recv on current/previous/closed/unknown socket, read timeouts, "
             "flood to the 1024 queue limit, read with various buffer sizes, Set*Deadline/Set*Buffer, LocalAddr, Close, hop racing "
             "Close, Close issued while hop is inside ListenUDPFunc, reads/writes/ticks after Close) drawn from the PRNG over 12 port expressions and valid/invalid interval "
             "configurations with listen failures injected; non-trivial = the operation was enabled (not idle / no connection)",
@@ -27,8 +32,10 @@ CFG = {
         "a closed channel is always ready; sync.RWMutex regions are atomic steps",
         "net.PacketConn contract of the sockets returned by ListenUDPFunc: Close makes a blocked ReadFrom return a non-timeout error "
         "(so the socket's recvLoop ends), an OPEN socket's ReadFrom fails only with timeouts, operations on a closed socket fail",
-        "UDPHopAddr.addrs() pairs every port with the one resolved server IP (not modelled; the harness oracle checks the "
-        "destination IP of every WriteTo)",
+        "net.ResolveIPAddr(\"ip\", host) and net.IP.String() are parameters of the address model (their results are recorded by "
+        "the harness and passed on the model-op line); net.SplitHostPort and net.JoinHostPort ARE modelled (Hy.Model.HopAddr) and "
+        "tied by the differential stream `hopaddr`; ResolveUDPHopAddr takes no resolver argument, so only literal IPs (and names "
+        "that fail fast) are generated — name resolution itself is outside the check",
         "the model Hy.Model.Hop is tied to extras/transport/udphop/conn.go by the synctest stream `hop` (real udpHopPacketConn, fake "
         "ListenUDPFunc, virtual clock) and by the constants packetQueueSize / udpBufferSize / defaultHopInterval regenerated from "
         "the compiled package",
@@ -54,11 +61,13 @@ MANIFEST = {
             "failing listen, writes, packets/timeouts on any socket, the two halves of ReadFrom with Go's select outcome as an input, "
             "Set*Deadline/Buffer, Close): a parsed expression contains exactly the union of the listed ports/ranges (and nil iff "
             "malformed), the result is sorted/disjoint/non-adjacent, Ports() enumerates the set strictly increasing incl. 65535; every "
-            "WriteTo goes out on the newest open socket to a port of the set; open sockets are within {current, previous}, at most two, a "
+            "WriteTo goes out on the newest open socket to (server IP, port of the set) where ResolveUDPHopAddr (SplitHostPort rules, "
+            "resolver as a parameter, port-expression parse) accepted the address iff it splits, resolves and parses, and addrs() is "
+            "[(ip,p) | p in Ports]; open sockets are within {current, previous}, at most two, a "
             "failed listen changes nothing; packets on the previous socket are queued and read in order until the next hop; after Close "
             "every socket ever opened is closed, hops are no-ops, writes and newly issued reads fail; hop-interval normalisation and "
             "jitter bounds. Tied to the source by regenerated constants, a 6k-case differential on expression strings with a model-free "
-            "65536-port bitmap oracle, and a synctest trace check of the real connection (fake sockets, virtual timers, failure "
+            "65536-port bitmap oracle, a 5k-case differential on address strings against the real ResolveUDPHopAddr/addrs()/String(), and a synctest trace check of the real connection (fake sockets, virtual timers, failure "
             "injection) against `hydrv hop` plus a model-free census oracle.",
     "note": "Trusted: Lean kernel (+leanchecker), axioms propext/Quot.sound/Classical.choice at most; the Go harness and hydrv; Go channel/"
             "select/mutex semantics and rand.Intn's range as stated. D10 (ReadFrom after Close returns a queued packet) is repaired by "
